@@ -2,7 +2,7 @@
     eligible uplinks".  One case = one REAL call of [handle_srt_packet] (session
     established) on real links in an arbitrary state: the links before, the inputs of the
     decision, the links afterwards, the link whose queue received the unique copy. *)
-From Coq Require Import Floats.
+From Coq Require Export Floats.
 From Srtla Require Import Base Constants FConstants Stall StallSel StallOps Run_Stall.
 From Srtla Require Export Stall StallSel Route.
 Local Open Scope Z_scope.
@@ -16,7 +16,7 @@ Record case := mkCase {
 }.
 
 (** the override as it stands in the source today applies the eligibility filter *)
-Definition FILTERED : bool := false.
+Definition FILTERED : bool := true.
 
 Definition queued_of (l : link) : Z := x_queued (lx l).
 
